@@ -39,7 +39,12 @@ pub fn utc() -> BoxedStrategy<Ndt> {
     // leap-second readings (a UTC leap second sits on second :59; seen through an offset with seconds
     // the wall clock shows it on another second)
     let leap = (gen::day(), 0u32..1440, 1_000_000_000u32..2_000_000_000).prop_map(|(day, m, frac)| Ndt { day: day.clamp(cal::min_day() + 1, cal::max_day() - 1), secs: m * 60 + 59, frac });
-    prop_oneof![3 => gen::ndt(), 3 => near_end, 2 => near_midnight, 1 => leap].boxed()
+    // within a day of the start of a year / month: the wall-clock year or month differs from the UTC one
+    let near_month_start = (cal::MIN_YEAR + 1..cal::MAX_YEAR, prop_oneof![2 => Just(1u32), 1 => 1u32..=12], -86_400i64..86_400, 0u32..1_000_000_000).prop_map(|(y, m, ds, frac)| {
+        let z = cal::days_from_civil(y, m, 1) * 86_400 + ds;
+        Ndt { day: z.div_euclid(86_400), secs: z.rem_euclid(86_400) as u32, frac }
+    });
+    prop_oneof![3 => gen::ndt(), 3 => near_end, 2 => near_midnight, 1 => leap, 2 => near_month_start].boxed()
 }
 
 fn classify(u: Ndt, off: i32, obs: &mut Obs) -> Ndt {
@@ -60,6 +65,11 @@ fn check_wall_accessors(dt: &DateTime<FixedOffset>, w: Ndt) -> Result<(), String
     ensure_eq!((dt.iso_week().year() as i64, dt.iso_week().week()), (f.iso_year, f.iso_week), "iso week of wall clock");
     ensure_eq!((dt.hour(), dt.minute(), dt.second(), dt.nanosecond()), (w.secs / 3600, w.secs / 60 % 60, w.secs % 60, w.frac), "clock fields of wall clock");
     ensure_eq!(dt.num_seconds_from_midnight(), w.secs, "num_seconds_from_midnight");
+    let h = w.secs / 3600;
+    ensure_eq!(dt.hour12(), (h >= 12, if h % 12 == 0 { 12 } else { h % 12 }), "hour12 of wall clock");
+    ensure_eq!(dt.num_days_from_ce() as i64, w.day + cal::CE_SHIFT, "num_days_from_ce of wall clock");
+    ensure_eq!(dt.year_ce(), (f.year >= 1, if f.year >= 1 { f.year as u32 } else { (1 - f.year) as u32 }), "year_ce of wall clock");
+    ensure_eq!(dt.quarter(), (f.month - 1) / 3 + 1, "quarter of wall clock");
     ensure_eq!(crate::props::c07::T::of(&dt.time()), T { secs: w.secs, frac: w.frac }, "time()");
     Ok(())
 }
@@ -124,6 +134,29 @@ impl SubCheck for Construct {
             }
             other => return Err(format!("from_local_datetime on a fixed offset = {other:?}")),
         }
+        // alternative public routes to the same two conversions
+        ensure_eq!(fo.utc_minus_local(), -off, "utc_minus_local");
+        #[allow(deprecated)]
+        {
+            ensure_eq!(DateTime::<FixedOffset>::from_utc(nu, fo), dt, "DateTime::from_utc");
+        }
+        let add = call("NaiveDateTime::checked_add_offset", || nu.checked_add_offset(fo))?;
+        ensure_eq!(add.map(|x| key(conv::model_of(&x))), if cal::in_range_day(w.day) { Some(key(w)) } else { None }, "checked_add_offset({off})");
+        let sub = call("NaiveDateTime::checked_sub_offset", || nu.checked_sub_offset(fo))?;
+        ensure_eq!(sub.map(|x| key(conv::model_of(&x))), if cal::in_range_day(as_local_utc.day) { Some(key(as_local_utc)) } else { None }, "checked_sub_offset({off})");
+        if let Some(a) = add {
+            ensure_eq!(call("NaiveDateTime + FixedOffset", || nu + fo)?, a, "NaiveDateTime + FixedOffset");
+            #[allow(deprecated)]
+            {
+                ensure_eq!(call("DateTime::from_local", || DateTime::<FixedOffset>::from_local(a, fo))?, dt, "DateTime::from_local(wall, offset)");
+            }
+        }
+        if let Some(b) = sub {
+            ensure_eq!(call("NaiveDateTime - FixedOffset", || nu - fo)?, b, "NaiveDateTime - FixedOffset");
+        }
+        ensure_eq!(DateTime::<Utc>::from(dt), nu.and_utc(), "From<DateTime<FixedOffset>> for DateTime<Utc>");
+        let back = DateTime::<FixedOffset>::from(nu.and_utc());
+        ensure_eq!((back.naive_utc(), back.offset().local_minus_utc()), (nu, 0), "From<DateTime<Utc>> for DateTime<FixedOffset>");
         // zone conversion never changes the instant
         let fo2 = FixedOffset::east_opt(off2).ok_or("harness: offset")?;
         let c = call("with_timezone", || dt.with_timezone(&fo2))?;
